@@ -6,6 +6,7 @@ import (
 	"go/parser"
 	"go/token"
 	"go/types"
+	"regexp"
 	"sort"
 	"strings"
 
@@ -1079,8 +1080,20 @@ func (v *Verifier) poolCall(st *State, tg *callTarget, bind ssa.Value, in ssa.In
 			v.emit(st, "pool-put", "inv:"+pd.Var, append([]string{"C07"}, pd.Inv.Tags...), tImp(v.dynIs(x, ty), g), pd.Inv.Src, posOf(in.Parent(), in.Pos()))
 		}
 	}
-	// ownership: the object is released; record for use-after-release checks
-	st.released = append(st.released, v.unbox(x, ty))
+	// ownership: the object is released. Putting one object into its pool twice would let two later Gets hand out
+	// the same object to two owners: every Put is checked against the earlier Puts into the same pool on this path.
+	ux := v.unbox(x, ty)
+	for i, r := range st.released {
+		if i < len(st.releasedPool) && st.releasedPool[i] == pd.Var {
+			g := tNot(tEq(ux, r))
+			if d, ok := provablyDistinct(ux, r); ok && d {
+				g = tTrue
+			}
+			v.emit(st, "pool-put", "once:"+pd.Var, []string{"C07", "C08"}, g, "the object put into "+pd.Var+" was not already put into it on this path (an object is released once)", posOf(in.Parent(), in.Pos()))
+		}
+	}
+	st.released = append(st.released, ux)
+	st.releasedPool = append(st.releasedPool, pd.Var)
 }
 
 // ---- builtins
@@ -1999,8 +2012,9 @@ func (v *Verifier) finishPath(st *State, rs []*Term) {
 	}
 	env.mode = 2
 	for _, en := range con.Ensures {
-		if con.TrustedPosts {
-			break
+		if con.TrustedPosts && !strings.HasPrefix(en.Label, "checked_") {
+			// trusted_posts: only the postconditions labelled checked_... are proved against the body
+			continue
 		}
 		g, err := env.evalBool(en.Expr)
 		if err != nil {
@@ -2050,6 +2064,8 @@ type deferredGhost struct {
 	name string
 }
 
+var contractLitRe = regexp.MustCompile(`"([^"\\]*)"`)
+
 func mentionsResult(x ast.Expr) bool {
 	found := false
 	ast.Inspect(x, func(n ast.Node) bool {
@@ -2089,6 +2105,30 @@ func (v *Verifier) verifyFunc(fn *ssa.Function, con *Contract, name string) {
 	v.curFn = name
 	v.factSeen = map[string]bool{}
 	v.curCon = con
+	v.contractLits = nil
+	{
+		seen := map[string]bool{}
+		var srcs []string
+		for _, cl := range con.Ensures {
+			srcs = append(srcs, cl.Src)
+		}
+		for _, lc := range con.Loops {
+			for _, inv := range lc.Invariants {
+				srcs = append(srcs, inv.Src)
+			}
+		}
+		for _, src := range srcs {
+			if !strings.Contains(src, "visited(") && !strings.Contains(src, "has(") {
+				continue
+			}
+			for _, m := range contractLitRe.FindAllStringSubmatch(src, -1) {
+				if !seen[m[1]] && len(seen) < 8 {
+					seen[m[1]] = true
+					v.contractLits = append(v.contractLits, m[1])
+				}
+			}
+		}
+	}
 	v.setTheory = false
 	for _, lc := range con.Loops {
 		for _, inv := range lc.Invariants {
